@@ -6,6 +6,7 @@ underlying result(s) so that suites stop dispatching tests."""
 
 import io
 import re
+import warnings
 import sys
 import threading
 import types
@@ -240,6 +241,26 @@ def make_case(kind, tid, hooks):
     return testtools.clone_test_with_new_id(T("test_it"), tid)
 
 
+def make_std_case(kind, tid, hooks):
+    """A plain stdlib unittest.TestCase: it talks to the result directly, nothing interposed."""
+
+    def body(self):
+        hooks.append(("run", tid))
+        for h in list(hooks.pre.get(tid, ())):
+            h()
+        if kind in ("fail", "xfail"):
+            self.fail("scripted")
+        if kind == "error":
+            raise RuntimeError("scripted")
+        if kind == "skip":
+            self.skipTest("scripted")
+
+    if kind in ("xfail", "uxsuccess"):
+        body = unittest.expectedFailure(body)
+    T = type("S_" + tid, (unittest.TestCase,), {"test_it": body, "id": lambda self: tid})
+    return T("test_it")
+
+
 class _Hooks(list):
     def __init__(self):
         super().__init__()
@@ -262,6 +283,7 @@ def scenario_suite(tape, out):
     n = tape.draw("program", 7, "n-tests")
     kinds = [tape.weighted("program", [(4, "pass"), (1, "fail"), (1, "error"), (1, "skip"), (1, "xfail"), (1, "uxsuccess")], "kind") for _ in range(n)]
     holders = [tape.chance("program", 1, 4, "placeholder") for _ in range(n)]
+    stdlib = [tape.chance("program", 1, 4, "stdlib-testcase") for _ in range(n)]
     stop_in = tape.draw("program", n, "stop-in-test") if (n and tape.chance("program", 1, 4, "stop-from-test")) else None
     world = World()
     hooks = _Hooks()
@@ -303,8 +325,12 @@ def scenario_suite(tape, out):
             t.run = run
             t.__call__ = run
             tests.append(_Callable(t, run))
+        elif stdlib[i]:
+            tests.append(make_std_case(k, tid, hooks))
         else:
             tests.append(make_case(k, tid, hooks))
+    if any(stdlib):
+        out.probe("stdlib-testcase-in-suite")
     suite = unittest.TestSuite(tests)
     # optionally a first run on the same result objects that ends stopped: startTestRun must give a
     # pristine result again (shouldStop false until the first bad outcome of *this* run)
@@ -458,6 +484,7 @@ def run_one(tape, opts):
     sc = tape.weighted("config", [(4, "history"), (4, "suite"), (1, "run")], "scenario")
     clock = vclock.VClock()
     vclock.install(clock)
+    warnings.filterwarnings("ignore", message="TestResult has no addDuration method")
     try:
         name, spec, info = {"history": scenario_history, "suite": scenario_suite, "run": scenario_run}[sc](tape, out)
     finally:
